@@ -90,9 +90,10 @@ CHECKS = {
                   probes=["activation_started", "activation_joined_pending", "activation_completed", "held_message_released", "several_held_messages_released", "activation_failed_exit", "activation_failed_exec",
                           "activation_failed_timeout", "activation_failure_several_waiters", "start_already_running", "start_unknown_service", "service_exit_status_0", "held_message_of_vanished_sender_dropped"], safety_prop="C10"), companion="C19H"),
     "C14": dict(simbus("C14", "for each sampled (history, operation) pair generated from mix(VERIF_SEED, i): one fault-free execution counts the allocations n the bus makes while processing the "
-                  "operation, then the whole plan is re-executed n times with allocation k = 0..n-1 of that operation failing (exhaustive in k, sampled in history and operation); an "
+                  "operation, then the whole plan is re-executed n times with allocation k = 0..n-1 of that operation failing (exhaustive in k, sampled in history and operation), and again with "
+                  "a second failure gap allocations after the first (hook H5): every (k, gap <= 10) for operations of at most 14 allocations, (even k, gap in {0,3,9}) for operations up to 120; an "
                   "evaluation is one (history, operation, k) execution; distinct = distinct trace hash; non-trivial = the injected failure fired and the outcome was compared with both admissible worlds",
-                  probes=["oom_outcome_complete", "oom_outcome_nomemory", "oom_retried", "h2_retry_after_oom"], safety_prop="C14", level="fault_enumeration"), max_runs=None),
+                  probes=["oom_outcome_complete", "oom_outcome_nomemory", "oom_retried", "h2_retry_after_oom", "oom_pair_runs", "oom_second_fired"], safety_prop="C14", level="fault_enumeration"), max_runs=None),
 }
 
 # ----------------------------------------------------------------------------- MANIFEST texts
@@ -157,7 +158,8 @@ MANIFEST_TEXT = {
                "DESIGN.md section 4 C18", "deterministic simulation, seeded history search, model-based oracle on recorded history"),
     "C14": _mt("Fault enumeration over the daemon's request handlers: for each sampled (history, operation) — Hello, RequestName (free / queued / replacing), ReleaseName, AddMatch, "
                "RemoveMatch, BecomeMonitor, a routed unicast, a broadcast, a reply consuming a slot, queries — one fault-free execution counts the allocations n made while the bus "
-               "processes the operation, then the plan is re-executed with allocation k failing for EVERY k in 0..n-1 (dbus's own _dbus_set_fail_alloc_counter). After each, with "
+               "processes the operation, then the plan is re-executed with allocation k failing for EVERY k in 0..n-1 (dbus's own _dbus_set_fail_alloc_counter), and with pairs of failing "
+               "allocations (k, then gap allocations later; guarded hook H5): all (k, gap <= 10) for operations of at most 14 allocations, a sample for longer ones. After each, with "
                "injection off, exactly two worlds are admissible and compared in full against the model: the complete effect (every signal, reply, state change), or nothing but a "
                "NoMemory error to the requester; then the operation is retried and must end in the fault-free result; rules and names per connection are also counted white-box; "
                "dbus_malloc blocks and descriptors must be back at baseline after shutdown. Library-side operations (message build/copy/edit, rule and config parsing) are not yet covered.",
